@@ -35,10 +35,12 @@ structure Handler where
   count : Int := 0
   next : Nat := 0              -- serial of the next successful open
   dstOpen : List Nat := []     -- serials whose destination socket is still open
+  max : Nat := 0               -- cfg.MaxConnections (0 = unlimited)
   deriving Repr
 
 inductive Ev
   | ack (peer id : Nat)
+  | err (peer id : Nat)         -- WriteStreamOpenErr
   | close (peer id : Nat)       -- WriteStreamClose
   | fin (peer id : Nat)         -- WriteStreamData(…, FIN_WRITE)
   | dst (serial : Nat)          -- bytes written to the destination socket of `serial`
@@ -52,6 +54,15 @@ def opened (h : Handler) (id peer : Nat) : Handler × List Ev :=
   ({ h with conns := h.conns.set id (Conn.mk' id peer h.next), count := h.count + 1, next := h.next + 1,
             dstOpen := h.next :: h.dstOpen },
    [.ack peer id])
+
+/-- An open that is refused — connection limit, unknown forward key, resolve failure, destination
+    not allowed, key generation / key exchange failure (all-zero or low-order ephemeral key), dial
+    failure: `sendOpenErr` and nothing else; in particular `connCount` is untouched. -/
+def openFail (h : Handler) (id peer : Nat) : Handler × List Ev := (h, [.err peer id])
+
+/-- `HandleStreamOpen` with a reachable destination and a usable key: refused at the limit. -/
+def tryOpen (h : Handler) (id peer : Nat) : Handler × List Ev :=
+  if h.max > 0 ∧ h.count ≥ (h.max : Int) then h.openFail id peer else h.opened id peer
 
 /-- `removeConnection`. -/
 def remove (h : Handler) (id : Nat) : Handler × Option Conn :=
@@ -87,6 +98,7 @@ end Handler
 
 inductive Op
   | opened (id peer : Nat)
+  | openFail (id peer : Nat)
   | data (id fromPeer serial : Nat)
   | close (id fromPeer : Nat)      -- STREAM_CLOSE / STREAM_RESET
   | dstEof (c : Conn)
@@ -94,6 +106,7 @@ inductive Op
 
 def Handler.apply (h : Handler) : Op → Handler × List Ev
   | .opened id peer => h.opened id peer
+  | .openFail id peer => h.openFail id peer
   | .data id p s => h.data id p s
   | .close id p => h.closeConn id p
   | .dstEof c => h.dstEof c
